@@ -130,6 +130,8 @@ def _strip_node(case: dict, gi: int, n: str) -> dict | None:
 
 def minimise(case: dict, sig: str, max_runs: int = 400) -> tuple[dict, dict]:
     """Return (minimised explicit case, info) for a violation observed inside one execution."""
+    if max(len(g["nodes"]) for g in case["graphs"]) > 200:
+        max_runs = min(max_runs, 60)  # a run on a 1 000-node chain costs seconds, not milliseconds
     budget = Budget(max_runs)
     cases, info = minimise_many([case], lambda cs: _fails(cs[0], sig, budget), budget)
     info["sig"] = sig
